@@ -34,6 +34,7 @@ NextTrace == /\ tid' = tid + 1 /\ phase' = "begin"
 
 InputOK(t) == /\ WellFormed(t.sig)
               /\ \A i \in DOMAIN t.call : WellFormedItem(t.call[i])
+              /\ Cardinality({i \in DOMAIN t.call : t.call[i].fv}) <= 1
 
 Begin == /\ tid <= Len(Traces) /\ phase = "begin"
          /\ IF InputOK(T)
